@@ -317,13 +317,62 @@ func genDecoders(c *Ctx) {
 			text := "did:key:z" + base58.Encode(append(binary.AppendUvarint(nil, code), material...))
 			hostile = append(hostile, []byte(text))
 			for _, tag := range []string{"ucan/dlg@1.0.0-rc.1", "ucan/inv@1.0.0-rc.1"} {
-				pay := mkMap(ent{"iss", basicnode.NewString(text)}, ent{"aud", basicnode.NewString(text)}, ent{"sub", basicnode.NewString(text)}, ent{"cmd", basicnode.NewString("/")},
-					ent{"pol", mkList()}, ent{"args", mkMap()}, ent{"prf", mkList()}, ent{"nonce", basicnode.NewBytes(bytes.Repeat([]byte{1}, 12))}, ent{"exp", datamodel.Null})
+				pay := hostilePayload(tag, text, mkList())
 				env := mkList(basicnode.NewBytes([]byte{1, 2, 3}), mkMap(ent{"h", basicnode.NewBytes([]byte{0x34, 0xed, 0x01, 0x71})}, ent{tag, pay}))
 				hostile = append(hostile, cborOf(env))
 				if js, err := ipld.Encode(env, dagjson.Encode); err == nil {
 					hostile = append(hostile, js)
 				}
+			}
+		}
+	}
+	// (unsigned) envelopes of a well-formed issuer whose varsig header is empty, one byte, or cut short, and whose
+	// policy holds operators / selectors / patterns made of UTF-8 continuation bytes or cut multi-byte characters
+	{
+		gp := detKeys(c.Seed+77, 1)[0] // (Ed25519)
+		good := gp.did.String()
+		weird := []string{strings.Repeat("\x80", 12), strings.Repeat("\xbf", 11), "aaaaaaaaa\xc3\xa9", "aaaaaaaa\xe6\x97\xa5x", strings.Repeat("é", 6), "\xf0\x9f\x98", strings.Repeat("\xf0", 11)}
+		for _, hdr := range [][]byte{{}, {0x34}, {0x34, 0xed}, {0x34, 0xed, 0x01}, {0xed}, {0x00}, nil} {
+			for wi := -1; wi < len(weird); wi++ {
+				if wi >= 0 && len(hdr) != 4-1 {
+					continue // the policy variants ride on one header only
+				}
+				pol := mkList()
+				if wi >= 0 {
+					x := basicnode.NewString(weird[wi])
+					pol = mkList(mkList(x, basicnode.NewString(".a"), basicnode.NewInt(1)), mkList(basicnode.NewString("=="), x, basicnode.NewInt(1)),
+						mkList(basicnode.NewString("like"), basicnode.NewString(".a"), x), mkList(basicnode.NewString("any"), x, mkList(x, x, x)), mkList(x))
+				}
+				for _, tag := range []string{"ucan/dlg@1.0.0-rc.1", "ucan/inv@1.0.0-rc.1"} {
+					pay := hostilePayload(tag, good, pol)
+					var h datamodel.Node = basicnode.NewBytes(hdr)
+					if hdr == nil {
+						h = datamodel.Null
+					}
+					env := mkList(basicnode.NewBytes(bytes.Repeat([]byte{7}, 64)), mkMap(ent{"h", h}, ent{tag, pay}))
+					if wi >= 0 {
+						// correctly signed under the issuer's own header: the decoder gets as far as the policy
+						sp := mkMap(ent{"h", basicnode.NewBytes([]byte{0x34, 0xed, 0x01, 0x71})}, ent{tag, pay})
+						if sig, err := gp.priv.Sign(cborOf(sp)); err == nil {
+							env = mkList(basicnode.NewBytes(sig), sp)
+						}
+					}
+					hostile = append(hostile, cborOf(env))
+					if js, err := ipld.Encode(env, dagjson.Encode); err == nil {
+						hostile = append(hostile, js)
+					}
+				}
+			}
+		}
+		for _, wd := range weird {
+			x := basicnode.NewString(wd)
+			for _, nd := range []datamodel.Node{
+				mkList(mkList(x, basicnode.NewString(".a"), basicnode.NewInt(1))), mkList(mkList(basicnode.NewString("=="), x, basicnode.NewInt(1))),
+				mkList(mkList(basicnode.NewString("like"), basicnode.NewString(".a"), x)), mkList(mkList(basicnode.NewString("all"), x, mkList(x, x, x))),
+				mkList(mkList(x)), mkList(x), mkList(mkList(basicnode.NewString("not"), mkList(x, x, x))), mkList(mkList(basicnode.NewString("and"), mkList(mkList(x, x)))),
+			} {
+				cls := classify(func() error { _, err := policy.FromIPLD(nd); return err })
+				c.Emit("dec/policy-node", WList(WStr("polnode"), WNode(nd)), WStr(cls))
 			}
 		}
 	}
@@ -449,6 +498,17 @@ func genDecoders(c *Ctx) {
 	}
 }
 
+// hostilePayload: a payload with exactly the fields of its token type, all three principals the same text
+func hostilePayload(tag, principal string, pol datamodel.Node) datamodel.Node {
+	p := basicnode.NewString(principal)
+	nonce := basicnode.NewBytes(bytes.Repeat([]byte{1}, 12))
+	if strings.HasPrefix(tag, "ucan/dlg") {
+		return mkMap(ent{"iss", p}, ent{"aud", p}, ent{"sub", p}, ent{"cmd", basicnode.NewString("/")}, ent{"pol", pol}, ent{"nonce", nonce}, ent{"exp", datamodel.Null})
+	}
+	// (an invocation has no policy: the weird strings go into its arguments)
+	return mkMap(ent{"iss", p}, ent{"sub", p}, ent{"cmd", basicnode.NewString("/")}, ent{"args", mkMap(ent{"pol", pol})}, ent{"prf", mkList()}, ent{"nonce", nonce}, ent{"exp", datamodel.Null})
+}
+
 // decodersChild runs one hostile family at one size and prints "RESULT class maxrss inputlen".
 // (--tier carries the family name, --seed the size: the child reuses the harness's flag parser.)
 func decodersChild(c *Ctx) {
@@ -514,8 +574,26 @@ func decodersChild(c *Ctx) {
 		return
 	}
 	cls := classify(f)
+	c.out.Flush()
+	fmt.Printf("RESULT %s %d %d\n", cls, peakRSS(), len(input))
+}
+
+// peakRSS: the high-water mark of this process image's resident set (VmHWM: counted from exec on, whereas
+// getrusage's ru_maxrss also carries the peak of the parent that spawned the process).
+func peakRSS() int64 {
+	if b, err := os.ReadFile("/proc/self/status"); err == nil {
+		for _, line := range strings.Split(string(b), "\n") {
+			if strings.HasPrefix(line, "VmHWM:") {
+				f := strings.Fields(line)
+				if len(f) >= 2 {
+					if kb, err := strconv.ParseInt(f[1], 10, 64); err == nil {
+						return kb * 1024
+					}
+				}
+			}
+		}
+	}
 	var ru syscall.Rusage
 	_ = syscall.Getrusage(syscall.RUSAGE_SELF, &ru)
-	c.out.Flush()
-	fmt.Printf("RESULT %s %d %d\n", cls, ru.Maxrss*1024, len(input))
+	return ru.Maxrss * 1024
 }
